@@ -243,9 +243,14 @@ def r05_2(ctx):
     outs, box = build([("P", "p"), ("E", "e1")])
     ops = box["s"].fields.get("effect_ops")
     ctx.check("Sequence.effect_ops contains every operand and effect (dependency tracking)", isinstance(ops, list) and sorted(lab(x) for x in ops) == ["e1", "p"], "['e1','p']", str([lab(x) for x in ops] if isinstance(ops, list) else ops), fn_where(idx, fi))
-    # il_write
+    sequence_emits_every_member(ctx)
+
+
+def sequence_emits_every_member(ctx):
+    """Sequence.il_write names every member once, in order, with consistent SEQN counts - for short and for long sequences"""
+    idx = get_index(ctx.env)
     fw = idx.func("Sequence.il_write")
-    for n in (1, 2, 3, 4, 7, 8, 9, 10, 15, 16, 17, 18, 33):
+    for n in (1, 2, 3, 4, 7, 8, 9, 10, 15, 16, 17, 18, 33, 64, 65, 126, 127, 128, 129, 253, 254):
         def once(interp, n=n):
             effs = [AObj("Effect", {}, label=f"e{k}", opaque=True) for k in range(1, n + 1)]
             return interp.call_function(fw, [], self_obj=AObj("Sequence", {"effects": effs}, label="self"))
